@@ -101,7 +101,7 @@ func (fr *frame) get(key ssa.Value) value {
 	if i, ok := fr.info.idx[key]; ok {
 		return fr.env[i]
 	}
-	panic(fmt.Sprintf("get: no value for %T: %v", key, key.Name()))
+	panic(fmt.Sprintf("symgo: internal: get: no value for %T: %v", key, key.Name()))
 }
 
 func (fr *frame) set(key ssa.Value, v value) {
@@ -315,7 +315,7 @@ func visitInstr(fr *frame, instr ssa.Instruction) continuation {
 			i := m.boundsCheck(idx, len(a))
 			fr.set(instr, &a[i])
 		default:
-			panic(fmt.Sprintf("unexpected x type in IndexAddr: %T", x))
+			panic(fmt.Sprintf("symgo: internal: unexpected x type in IndexAddr: %T", x))
 		}
 
 	case *ssa.Index:
@@ -329,7 +329,7 @@ func visitInstr(fr *frame, instr ssa.Instruction) continuation {
 		case *SymStr:
 			fr.set(instr, x.b[m.boundsCheck(idx, len(x.b))])
 		default:
-			panic(fmt.Sprintf("unexpected x type in Index: %T", x))
+			panic(fmt.Sprintf("symgo: internal: unexpected x type in Index: %T", x))
 		}
 
 	case *ssa.Lookup:
@@ -375,7 +375,7 @@ func prepareCall(fr *frame, call *ssa.CallCommon) (fn value, args []value) {
 		}
 		f := fr.m.prog.LookupMethod(recv.t, call.Method.Pkg(), call.Method.Name())
 		if f == nil {
-			panic(fmt.Sprintf("method set for dynamic type %v does not contain %s", recv.t, call.Method))
+			panic(fmt.Sprintf("symgo: internal: method set for dynamic type %v does not contain %s", recv.t, call.Method))
 		}
 		fn = f
 		args = append(args, recv.v)
@@ -400,7 +400,7 @@ func call(m *Machine, caller *frame, callpos token.Pos, fn value, args []value) 
 	case *nativeFn:
 		return fn.f(m, args)
 	}
-	panic(fmt.Sprintf("cannot call %T", fn))
+	panic(fmt.Sprintf("symgo: internal: cannot call %T", fn))
 }
 
 func callSSA(m *Machine, caller *frame, callpos token.Pos, fn *ssa.Function, args []value, env []value) value {
@@ -464,7 +464,10 @@ func runFrame(fr *frame) {
 			panic(pa)
 		}
 		if s, ok := r.(string); ok && strings.HasPrefix(s, "symgo:") {
-			panic(r) // interpreter limitation: not recoverable by the target
+			if os.Getenv("VERIF_DEBUG") != "" && !strings.Contains(s, "target stack") {
+				s += "\ntarget stack: " + targetStack(fr) + "\n" + string(debug.Stack())
+			}
+			panic(s) // interpreter limitation: not recoverable by the target
 		}
 		if re, ok := r.(runtime.Error); ok && strings.Contains(re.Error(), "symgo.") {
 			// a failed type assertion inside the executor itself: executor bug / unsupported shape
@@ -540,7 +543,7 @@ func doRecover(caller *frame) value {
 			// fatal errors cannot be recovered in Go
 			panic(p)
 		default:
-			panic(fmt.Sprintf("unexpected panic type %T in target call to recover()", p))
+			panic(fmt.Sprintf("symgo: internal: unexpected panic type %T in target call to recover()", p))
 		}
 	}
 	return iface{}
